@@ -140,7 +140,41 @@ func (a *adversary) craftFor(r *run, n *cnode) (*interfaces.ConsensusRawMessage,
 	}
 	me := a.someSigner(r)
 	leader := a.leaderOf(h, v)
-	switch r.rnd.Intn(17) {
+	switch r.rnd.Intn(18) {
+	case 17: // structurally valid messages with degenerate field values: empty ids, empty vote sets, empty proofs
+		b := a.knownBlock(r, h)
+		empty := primitives.MemberId{}
+		one := primitives.MemberId{0x01}
+		switch r.rnd.Intn(7) {
+		case 0:
+			return a.mkP(ref(protocol.LEAN_HELIX_PREPARE, h, v, b), empty, "forged"), "p_empty_sender"
+		case 1:
+			return a.mkC(ref(protocol.LEAN_HELIX_COMMIT, h, v, b), one, "forged", "forged"), "c_one_byte_sender"
+		case 2:
+			return a.mkPP(ref(protocol.LEAN_HELIX_PREPREPARE, h, v, b), empty, "empty", b), "pp_empty_sender_empty_sig"
+		case 3:
+			tv := v
+			if tv == 0 {
+				tv = 1
+			}
+			d := nvD{inst: clusterInstance, h: h, v: tv, sender: a.leaderOf(h, tv), votes: nil, pp: ref(protocol.LEAN_HELIX_PREPREPARE, h, tv, b), ppBy: a.leaderOf(h, tv)}
+			return a.mkNV(d, b), "nv_no_votes"
+		case 4:
+			tv := v
+			if tv == 0 {
+				tv = 1
+			}
+			pr := proofD{present: true, pp: ref(protocol.LEAN_HELIX_PREPREPARE, h, 0, b), ppBy: a.leaderOf(h, 0), p: ref(protocol.LEAN_HELIX_PREPARE, h, 0, b)}
+			return a.mkVC(voteD{ht: protocol.LEAN_HELIX_VIEW_CHANGE, inst: clusterInstance, h: h, v: tv, sender: me, proof: pr}, b), "vc_proof_without_prepare_senders"
+		case 5:
+			rf := ref(protocol.LEAN_HELIX_PREPARE, h, v, b)
+			rf.hash = primitives.BlockHash{}
+			return a.mkP(rf, me, ""), "p_empty_hash"
+		default:
+			rf := ref(protocol.LEAN_HELIX_COMMIT, h, v, b)
+			rf.hash = primitives.BlockHash{}
+			return a.mkC(rf, me, "", ""), "c_empty_hash"
+		}
 	case 16: // non-canonical encodings: trailing bytes inside the signed header, signed as sent
 		b := a.knownBlock(r, h)
 		switch r.rnd.Intn(3) {
